@@ -484,7 +484,12 @@ func (w *World) buildPayV2(wl *Wallet, n *Node, chain int) []*PoolTxn {
 	if t.Chance(2, 3) && total.Cmp(types.Siacoins(2)) > 0 {
 		txn.MinerFee = types.Siacoins(1).Div64(uint64(t.Range(1, 100)))
 	}
-	for i, p := range splitValue(t, total.Sub(txn.MinerFee), t.Range(1, 4)) {
+	parts := t.Range(1, 4)
+	if t.Chance(1, 25) {
+		parts = t.Range(60, 140) // (a block's diffs outgrow whatever they were first sized for)
+		w.stats.Inc("workload.many-outputs")
+	}
+	for i, p := range splitValue(t, total.Sub(txn.MinerFee), parts) {
 		addr := w.pickAddr(t, true)
 		if chain > 0 && i == 0 {
 			addr = wl.addrs[3].addr // pol-pk, always satisfiable: head of the ephemeral chain
